@@ -388,7 +388,7 @@ for _k in range(NT):
 for _k in range(NT):
     if PRECOOKED[_k][0][0] != 'ok':
         continue
-    if 'upper' in PRECOOKED[_k][0][3] or 'fmt="' in PRECOOKED[_k][0][3]:
+    if any(w in PRECOOKED[_k][0][3] for w in ('upper', 'lower', 'fmt="', 'url_quote', 'thousands_commas')):
         continue        # case mapping / %-formatting of a symbolic str makes CrossHair realise it value by value; covered by tpl_* pools
     OBLIGATIONS.append(Ob('render_%02d' % _k, make_render(_k), ['len(x) <= 2', '0 <= n <= 3'], timeout=tier(250, 900),
                           data='namespace values: x any str (len <= 2), int n 0..3, bool c (symbolic, flow through the three compiled programs)',
